@@ -74,7 +74,7 @@ pub fn case_replayable(case: &Case) -> bool {
         Case::Input(_) | Case::Ops { .. } => true,
         // (cases of the feature-less build are decided by the second binary and cannot be
         // re-executed inside this one)
-        Case::Text(t) => !t.starts_with("vpair:unreplayable:") && !t.starts_with("direction:base:") && ["triple:", "pair:", "mpair:", "direction:", "arg:", "partsidx:", "vpair:", "conc:"].iter().any(|p| t.starts_with(p)),
+        Case::Text(t) => !t.starts_with("vpair:unreplayable:") && !t.starts_with("direction:base:") && ["triple:", "pair:", "mpair:", "direction:", "arg:", "partsidx:", "vpair:", "conc:", "unk:", "hist:", "dirhist:likelysubtags:"].iter().any(|p| t.starts_with(p)),
     }
 }
 
@@ -116,12 +116,17 @@ pub fn replay_case(_ctx: &Ctx, sub: &'static str, case: &Case) -> Vec<(String, S
             }
         }
         #[cfg(feature = "likelysubtags")]
+        Case::Text(t) if t.starts_with("unk:") => likely::replay_unknown(_ctx, sub, t, &coll),
+        #[cfg(feature = "likelysubtags")]
+        Case::Text(t) if t.starts_with("hist:") => likely::replay_hist(_ctx, sub, t, &coll),
+        #[cfg(feature = "likelysubtags")]
         Case::Text(t) if t.starts_with("conc:") => conc::replay(_ctx, sub, t, &coll),
         Case::Text(t) if t.starts_with("partsidx:") => values::replay_parts(t, &coll),
         Case::Text(t) if t.starts_with("vpair:") => values::replay_vpair(t, &coll),
         Case::Text(t) if t.starts_with("arg:") => args::replay(t, &coll),
         Case::Text(t) if t.starts_with("pair:") => matches::replay(t, &coll),
         Case::Text(t) if t.starts_with("mpair:") => metamorphic::replay(t, &coll),
+        Case::Text(t) if t.starts_with("dirhist:") => direction::replay_hist(t, &coll),
         Case::Text(t) if t.starts_with("direction:") => direction::replay(_ctx, t, &coll),
         _ => {}
     }
